@@ -544,7 +544,11 @@ func msgpackOp(t *rapid.T, b, other []byte) ([]byte, string) {
 			out[it.Off] = byte(rapid.IntRange(0, 8).Draw(t, "newkey"))
 			return out, "refinement-key"
 		}
-		out[it.Off+it.Hdr-1] ^= byte(rapid.IntRange(1, 255).Draw(t, "xor"))
+		at := it.Off + it.Hdr - 1
+		if at >= len(out) {
+			at = len(out) - 1
+		}
+		out[at] ^= byte(rapid.IntRange(1, 255).Draw(t, "xor"))
 		return out, "refinement-byte"
 	case 6: // edit the JSON type descriptor of a dynamic wrapper (a bin item) and fix up its length
 		var bins []int
